@@ -1,10 +1,12 @@
 (* C20 -- Compiled accelerators compute the same functions as the pure-Python paths (source level).
    Property theorems only: each is closed by [exact] of a lemma from Proofs/, followed by Print Assumptions.
    Both sides are regenerated on every run: Gen/Kernels.v from the Cython kernels of
-   MTfit/convert/cmoment_tensor_conversion.pyx (through tools/py2coq/pyx.py), Gen/Convert.v from the Python routines. *)
+   MTfit/convert/cmoment_tensor_conversion.pyx and MTfit/probability/cprobability.pyx (through tools/py2coq/pyx.py),
+   Gen/Convert.v, Gen/Polarity.v, Gen/Ratio.v from the Python routines. *)
 From Coq Require Import Reals.
-From MTV.Gen Require Import Convert Kernels.
-From MTV.Proofs Require Import C20_kernels.
+From MTV.Gen Require Import Convert Polarity Ratio Kernels.
+From MTV.Model Require Joint.
+From MTV.Proofs Require Import C20_kernels C20_likelihood.
 Open Scope R_scope.
 
 Theorem C20_hudson_uv_kernel : forall tau k, ctk_uv k tau = tk_uv tau k.
@@ -24,3 +26,30 @@ Theorem C20_strike_dip_rake_kernel_partial : forall n0 n1 n2 u0 u1 u2,
   cN_SDR n0 n1 n2 u0 u1 u2 = FP_SDR n0 n1 n2 u0 u1 u2.
 Proof. exact cN_SDR_equiv. Qed.
 Print Assumptions C20_strike_dip_rake_kernel_partial.
+
+(* ---- likelihood kernels of cprobability.pyx *)
+Theorem C20_polarity_kernel : forall erf x s i, s <> 0 -> pol_pdf erf x s i = pol_p erf x s i.
+Proof. exact pol_pdf_equiv. Qed.
+Print Assumptions C20_polarity_kernel.
+
+Theorem C20_polarity_probability_kernel : forall x p n i, x <> 0 \/ p + n = 1 -> pol_prob_pdf x p n i = polprob_p x p n i.
+Proof. exact pol_prob_pdf_equiv. Qed.
+Print Assumptions C20_polarity_probability_kernel.
+
+(* the full statement (for all x, p, n) is false of the sources: recorded as a known finding *)
+Theorem C20_polarity_probability_kernel_at_zero_refuted : exists p n i, pol_prob_pdf 0 p n i <> polprob_p 0 p n i.
+Proof. exact pol_prob_pdf_at_zero_refuted. Qed.
+Print Assumptions C20_polarity_probability_kernel_at_zero_refuted.
+
+(* amplitude ratio: the compiled kernel on the signed theoretical amplitudes equals the Python kernel (absolute values,
+   Phi) for any odd erf with Phi t = (1 + erf (t / sqrt 2)) / 2 *)
+Theorem C20_amplitude_ratio_kernel : forall erf Phi, (forall t, erf (- t) = - erf t) -> (forall t, Phi t = (1 + erf (t / sqrt 2)) / 2) ->
+  forall z mux muy psx psy, mux <> 0 -> muy <> 0 -> 0 < psx -> 0 < psy ->
+  ar_pdf erf z mux muy psx psy = ar_p Phi z mux muy psx psy.
+Proof. exact ar_pdf_equiv_signed. Qed.
+Print Assumptions C20_amplitude_ratio_kernel.
+
+Theorem C20_scale_combination_kernel : forall mu1 mu2 s1 s2, 0 < s1 -> 0 < s2 ->
+  (Kernels.combine_mu mu1 mu2 s1 s2, combine_s s1 s2) = Joint.combine_step Rplus Rmult Rdiv sqrt (mu1, s1) (mu2, s2).
+Proof. exact combine_equiv. Qed.
+Print Assumptions C20_scale_combination_kernel.
